@@ -518,8 +518,11 @@ func lastField(t *Term) string {
 		f := strings.ToLower(parts[len(parts)-1])
 		// a field of the query's own request (gRPC request message / legacy params) is a role; a field of a stored record
 		// read on the way keeps its record type, so that "the batch the request names" and "the context's current batch" differ
-		if len(parts) >= 3 && !strings.HasPrefix(parts[1], "Query") {
-			return strings.ToLower(parts[1]) + "." + f
+		if len(parts) >= 3 {
+			switch parts[1] {
+			case "RequestContext", "ServiceBinding", "ServiceDefinition", "Request", "Response", "Pricing":
+				return strings.ToLower(parts[1]) + "." + f
+			}
 		}
 		return f
 	}
@@ -845,6 +848,48 @@ func (c *Check) recordExistence(fs FactSet, fam string, args []string) (exists, 
 				absent = true
 			} else {
 				exists = true
+			}
+		case c.P.FuncNamed(t.Op) != nil && len(args) == len(t.A):
+			// a Has-style wrapper: a bool function that returns, on its single path, the found-result of the getter of
+			// this family called on its own parameters in order
+			g := c.P.FuncNamed(t.Op)
+			if g.Body == nil || !g.isHandWritten() || len(g.Res) != 1 || typeName(g.Res[0].Type()) != "bool" || c.P.pathsBusy[g] {
+				break
+			}
+			okArgs := true
+			for i, a := range t.A {
+				if a.String() != args[i] {
+					okArgs = false
+				}
+			}
+			ps := c.P.PathsOf(g)
+			if !okArgs || len(ps) != 1 || len(ps[0].Ret) != 1 {
+				break
+			}
+			r := stripConv(ps[0].Ret[0])
+			if r.Op == "res" && len(r.A) == 2 && !r.A[0].IsAt("0") {
+				call := stripConv(r.A[1])
+				if gg := c.P.FuncNamed(call.Op); gg != nil {
+					fam2 := ""
+					for _, e := range c.P.SummaryOf(gg).Effs {
+						if e.Kind == "store" && e.Op == "Get" {
+							fam2 = e.Family
+						}
+					}
+					inOrder := len(call.A) == len(t.A)
+					for i, a := range call.A {
+						if inOrder && !a.IsAt(fmt.Sprintf("P%d", i+len(g.Params)-len(t.A))) {
+							inOrder = false
+						}
+					}
+					if fam2 == fam && inOrder {
+						if f.Neg {
+							absent = true
+						} else {
+							exists = true
+						}
+					}
+				}
 			}
 		case t.Op == "nonempty" && len(t.A) == 1 && strings.HasSuffix(stripConv(t.A[0]).Op, "KVStore.Get"):
 			g := stripConv(t.A[0])
